@@ -143,7 +143,7 @@ func (d *Driver) Close() {
 	}
 	func() {
 		defer func() { _ = recover() }()
-		d.S.VerifClose()
+		d.S.VerifCloseAsServer() // the public Server.Close itself, on a Server without listener traffic
 	}()
 	d.S = nil
 	d.releaseTracked()
